@@ -85,7 +85,7 @@ class Row(Vector):
 	def __init__(self, table, index=0):
 		# SNAPSHOT: Grab raw column lists for speed
 		self._raw_cols = [col._underlying for col in table._underlying]
-		self._column_map = table._column_map
+		self._column_map = table._fresh_column_map()
 		self._index = index
 		
 		# Smart Dtype Inference (Runs once per table iteration/access)
@@ -298,8 +298,16 @@ class Table(Vector):
 		"""Return list of available attributes including sanitized column names."""
 		# Use object.__dir__ to get instance attributes, then add column names
 		base_attrs = object.__dir__(self)
-		return set(list(self._build_column_map().keys()) + base_attrs)
+		# Keep the cached map in step: building it marks the columns as seen
+		self._column_map = self._build_column_map()
+		return set(list(self._column_map.keys()) + base_attrs)
 	
+	def _fresh_column_map(self):
+		"""The accessor map, rebuilt first if a column was renamed through a live view."""
+		if any(col._wild for col in self._underlying or []):
+			self._column_map = self._build_column_map()
+		return self._column_map
+
 	def column_names(self):
 		"""Return list of column names (original names, not sanitized).
 		
@@ -319,8 +327,7 @@ class Table(Vector):
 	def __getattr__(self, attr):
 		"""Access columns by sanitized attribute name using pre-computed column map."""
 		# Check if any column has been renamed and rebuild map if needed
-		if any(col._wild for col in self._underlying or []):
-			self._column_map = self._build_column_map()
+		self._fresh_column_map()
 
 		# Parse for indexed accessor pattern (e.g., 'total__5')
 		base_name, col_idx = _parse_indexed_attr(attr)
@@ -448,7 +455,8 @@ class Table(Vector):
 				return
 			
 			# Regular column lookup by name
-			col_idx = self._column_map.get(attr) or self._column_map.get(attr.lower())
+			column_map = self._fresh_column_map()
+			col_idx = column_map.get(attr) or column_map.get(attr.lower())
 			if col_idx is not None:
 				# Replace the column in _underlying (with a snapshot of the caller's
 				# vector: the table must not share it with the caller)
@@ -725,7 +733,8 @@ class Table(Vector):
 			target_indices = [col_spec]
 		elif isinstance(col_spec, str):
 			# Look up by name
-			idx = self._column_map.get(col_spec) or self._column_map.get(col_spec.lower())
+			column_map = self._fresh_column_map()
+			idx = column_map.get(col_spec) or column_map.get(col_spec.lower())
 			if idx is None:
 				raise SerifKeyError(f"Column '{col_spec}' not found")
 			target_indices = [idx]
@@ -733,7 +742,8 @@ class Table(Vector):
 			# Handle list of names/ints
 			for c in col_spec:
 				if isinstance(c, str):
-					idx = self._column_map.get(c) or self._column_map.get(c.lower())
+					column_map = self._fresh_column_map()
+					idx = column_map.get(c) or column_map.get(c.lower())
 					if idx is None:
 						raise SerifKeyError(f"Column '{c}' not found")
 					target_indices.append(idx)
@@ -873,7 +883,7 @@ class Table(Vector):
 				# Set name
 				col._name = col_name
 
-				if _sanitize_user_name(col_name) in self._column_map:
+				if _sanitize_user_name(col_name) in self._fresh_column_map():
 					warnings.warn(f"Adding column with name '{col_name}' which already exists in the table. Consider renaming to avoid confusion.", UserWarning, stacklevel=2)
 				named_cols.append(col)
 			
